@@ -108,6 +108,7 @@ def _run(ctx, replay):
     stats = dict(histories=0, ops_in_histories=0, distinct_ops=0, compared=0, state_checks=0, retained_objects=0, exec_fresh_checked=0,
                  regions=len(regs), region_bytes=sum(r[1] for r in regs))
     findings = []      # dict(kind, key, what, ops, env)
+    ok_texts = set(); err_texts = set()
 
     def fresh_results(texts, env):
         texts = sorted(set(texts))
@@ -134,6 +135,7 @@ def _run(ctx, replay):
         for i, o in enumerate(ops):
             a = h['res'].get(i); b = fr.get(o)
             stats['compared'] += 1
+            if a is not None and a == b: (ok_texts if not re.search(r' e:\d|:~|bad-op|unparsed|noerr', a) else err_texts).add(o)
             if insertion and (o.startswith(('CrystalsList', 'AddBuiltin')) or any(x in o for x in inserted)): continue
             if a != b:
                 findings.append(dict(kind='result', what='result after history differs from the result in a process without history', ops=ops[:i + 1], env=env,
@@ -183,6 +185,12 @@ def _run(ctx, replay):
     else:
         nh, nops = (4, 2500) if ctx.tier == 'quick' else (30, 12000)
         all_ops = []
+        cdir = os.path.join(sl.VERIF, 'corpus')                      # corpus first
+        for fn in sorted(os.listdir(cdir)) if os.path.isdir(cdir) else []:
+            if fn.startswith(ID + '-') and fn.endswith('.lines'):
+                txt = open(os.path.join(cdir, fn)).read()
+                ops = split_ops(txt.splitlines()); all_ops += ops
+                check_history(ops, dict(re.findall(r'^#env (\w+)=(\S*)$', txt, flags=re.M)) or C_ENV, 'corpus ' + fn)
         for i in range(nh):
             g = xrlops.OpGen(random.Random(ctx.rng.getrandbits(64)), meta)
             ops = g.ops(nops, allow_retain=True)
@@ -320,12 +328,13 @@ def _run(ctx, replay):
                checker_cmd='cd lean-sched && lake build %s  (then `#print axioms` on each theorem; thorough: leanchecker)' % MODULE,
                trusted_base=sl.TRUSTED_BASE, theorems=[dict(name=th, axioms=axioms.get(th)) for th in theorems],
                traces_validated_against_impl=stats['compared'], evaluations=stats['compared'] + stats['state_checks'] + stats['exec_fresh_checked'],
-               distinct_nontrivial=stats['distinct_ops'],
+               distinct_nontrivial=len(ok_texts), distinct_failing_calls=len(err_texts), distinct_calls=stats['distinct_ops'],
                rule='seeded histories of API calls (tools/xrlops.py: every public function with a generic signature + hand-written ops for parser, NIST, '
                     'radionuclides, crystals, error API, deprecated functions; arguments from small per-run pools plus fresh draws; valid and failing calls; '
                     'with/without XRayInit; objects retained across calls).  Every call of a history is compared bit-for-bit with the same call in a process '
                     'without history (forked before any library call; a sample re-checked in exec\'ed processes).  distinct_nontrivial = number of distinct '
-                    'call texts executed in histories (each is a different function/argument tuple)',
+                    'call texts (function + argument tuple) that were executed inside a history, agreed with the fresh process AND produced a value or '
+                    'object rather than an error; distinct_failing_calls counts the distinct erroring ones',
                samples=[dict(call=o) for o in (all_ops[:3] + all_ops[-3:] if not replay else [])] +
                        [dict(finding=f['what'], minimal_history=f.get('min'), env=f['env']) for f in findings[:3]],
                footprint=dict(functions=len(meta['functions']), public=len(meta['classes']), classes={c: sum(1 for v in meta['classes'].values() if v == c) for c in set(meta['classes'].values())},
